@@ -250,7 +250,8 @@ Fixpoint parts_loop (fuel : nat) (ty : stype) (meta : option bool) (key : option
         | Err k => Err k
         | OutOfFuel => OutOfFuel
         | Ok (sp, c3) =>
-          let rsp' := if stype_eqb ty TSimple then sp else rsp in
+          (* `if curr_value.type == "simple" and filter_token is None: curr_value.spread = spread_token` (fix 3b4a681) *)
+          let rsp' := if stype_eqb ty TSimple && negb (is_some ftok) then sp else rsp in
           match terminal_tokens ty meta sp with
           | Err k => Err k
           | OutOfFuel => OutOfFuel
